@@ -1,13 +1,9 @@
 #!/bin/bash
-# seed_all.sh — run every seeded change against the check of its property (and extra ones given in seeded/<id>/also.txt)
+# seed_all.sh [prefix] — run every seeded change (or those whose id starts with prefix) against its property's check
 cd /verif
 for d in seeded/*/; do
   id=$(basename $d)
   if [ -n "$1" ] && [[ "$id" != $1* ]]; then continue; fi
   extra=""; [ -f $d/also.txt ] && extra=$(cat $d/also.txt)
-  if git -C /repo apply --check $d/patch.diff 2>/dev/null; then
-    echo "== $id"; python3 harness/seed_run.py $id $(python3 -c "import json;print(json.load(open('$d/meta.json'))['property'])") $extra 2>&1 | tail -4
-  else
-    echo "== $id: PATCH DOES NOT APPLY (needs rebase on the fix commits)"
-  fi
+  python3 harness/seed_run.py $id $(python3 -c "import json;print(json.load(open('$d/meta.json'))['property'])") $extra 2>&1 | tail -3
 done
